@@ -3,7 +3,8 @@
     lib/src/refs.rs:108-200 on top of Model/Merge.v: a ref target is the alternating term vector
     [list (option A)] of its [Merge<Option<CommitId>>] ([None] = absent, odd length); [ancb] is the
     index's [is_ancestor]. [den t v] = (#occurrences of v as an add) - (#occurrences as a remove). *)
-From Verif Require Import Base.Prelude Model.Merge Model.C12 Proofs.C02 Proofs.C12.
+From Verif Require Import Base.Prelude Model.Merge Model.C12 Proofs.C02 Proofs.C12
+  Proofs.C12Checker Proofs.C12Dag.
 Local Open Scope Z_scope.
 
 Section Statements.
@@ -68,7 +69,49 @@ Section Statements.
     odd left -> odd base -> odd right ->
     Outcome eqb ancb left base right (mrt left base right).
   Proof. exact (mrt_outcome eqb ancb eqb_spec). Qed.
+  (** Meaning of the boolean checker that every run applies to the implementation's result
+      (fields of [ResultOk], Proofs/C12Checker.v): odd arity; no invented term; the three
+      rules on whole targets; and, unless one of those rules applies, (i) every add/remove of
+      the result is a net-positive/net-negative value of the flattened input, at most as often
+      as its net count, (ii) every net-positive value of the input is an add of the result or
+      an ancestor of one (no side silently dropped), (iii) no further pair can be removed, and
+      (iv) a resolved result [v] is what cancellation alone leaves, or a commit of which every
+      other net side is an ancestor and every net base is absent or an ancestor. *)
+  Theorem C12_checker_spec : forall (left base right res : list T),
+    result_okb eqb ancb left base right res = true <-> ResultOk eqb ancb left base right res.
+  Proof. exact (result_okb_spec eqb ancb eqb_spec). Qed.
+
+  (** The model's result always satisfies that meaning (transitive ancestry). *)
+  Theorem C12_model_ok : forall (left base right : list T),
+    (forall x y z, ancb x y = true -> ancb y z = true -> ancb x z = true) ->
+    odd left -> odd base -> odd right ->
+    ResultOk eqb ancb left base right (mrt left base right).
+  Proof. exact (mrt_result_ok eqb ancb eqb_spec). Qed.
 End Statements.
+
+(** The case-level checker of the correspondence run. *)
+Theorem C12_okb_spec : forall c : C12.case,
+  C12.okb c = true <->
+  c_failed c = false
+  /\ ResultOk N.eqb (dag_ancb (c_dag c))
+       (map to_term (c_left c)) (map to_term (c_base c)) (map to_term (c_right c))
+       (map to_term (c_result c)).
+Proof. exact okb_spec. Qed.
+
+(** The ancestry the model is run with on a case ([dag_ancb], from the case's parent lists) is
+    reachability along parent edges and satisfies the hypotheses the theorems above put on
+    [ancb], whenever the DAG passes the well-formedness check made on every case. *)
+Theorem C12_dag_ancestry : forall g : dag,
+  wf_dagb g = true ->
+  (forall a d, dag_ancb g a d = true <-> anc g a d)
+  /\ (forall a, dag_ancb g a a = true)
+  /\ (forall x y z, dag_ancb g x y = true -> dag_ancb g y z = true -> dag_ancb g x z = true)
+  /\ (forall x y, dag_ancb g x y = true -> dag_ancb g y x = true -> x = y).
+Proof.
+  intros g H. pose proof (wf_dagb_spec g H) as W.
+  exact (conj (dag_ancb_spec g W) (conj (dag_ancb_refl g)
+          (conj (dag_ancb_trans g W) (dag_ancb_antisym g W)))).
+Qed.
 
 Check @C12_no_invention : forall A (eqb ancb : A -> A -> bool), (forall x y, eqb x y = true <-> x = y) ->
   forall (left base right : list (option A)) t,
@@ -98,3 +141,7 @@ Print Assumptions C12_fast_forward.
 Print Assumptions C12_no_invention.
 Print Assumptions C12_terminates.
 Print Assumptions C12_else_conflict.
+Print Assumptions C12_checker_spec.
+Print Assumptions C12_model_ok.
+Print Assumptions C12_okb_spec.
+Print Assumptions C12_dag_ancestry.
